@@ -31,6 +31,7 @@ import Sipsp.Proofs.FLine
 import Sipsp.Proofs.NameAddrL2
 import Sipsp.Proofs.HeadersL2
 import Sipsp.Model.Msg
+import Sipsp.Proofs.UriListsL
 
 namespace Sipsp.C02
 open Sipsp
@@ -143,6 +144,25 @@ theorem schedule_clen (o : Nat) (st : PUIntBody) (l : List Buf) (hg : Growing l)
 theorem schedule_skipquoted (o : Nat) (l : List Buf) (hg : Growing l) :
     resumeRun skipQuotedP o () l = oneShotRun skipQuotedP o () l :=
   resumeRun_eq_oneShot _ resume_skipquoted o () l hg
+
+/-! ### the stand-alone parameter parsers -/
+
+/-- ParseTokenParam: one-step law for EVERY option combination without the end-of-input option, `POptTokSpTermF`
+    included (the resumed call starts at another offset, which the space-terminator's previous-byte test looks at:
+    the proof shows a call is never suspended where that could matter) -/
+theorem resume_tokparam (b s : Buf) (o : Nat) (p : PTokParam) (flags : Nat) (hf : hasFlag flags POptInputEndF = false)
+    {o' : Nat} {p' : PTokParam} (h : parseTokenParam b o p flags = (o', Err.moreBytes, p')) :
+    parseTokenParam (b ++ s) o' p' flags = parseTokenParam (b ++ s) o p flags :=
+  parseTokenParam_resume b s o p flags hf h
+
+theorem schedule_tokparam : type_of% @parseTokenParam_schedule := @parseTokenParam_schedule
+
+/-- the URI parameter / header list wrappers: the resumed call returns the same offset, verdict and list object; the
+    per-call value counters add up -/
+theorem resume_uriparams : type_of% @parseAllURIParams_resume := @parseAllURIParams_resume
+theorem resume_urihdrs : type_of% @parseAllURIHdrs_resume := @parseAllURIHdrs_resume
+theorem schedule_uriparams : type_of% @parseAllURIParams_schedule := @parseAllURIParams_schedule
+theorem schedule_urihdrs : type_of% @parseAllURIHdrs_schedule := @parseAllURIHdrs_schedule
 
 /-- "called again after finishing": a finished object returns the offset it is given, unchanged -/
 theorem finished_callid (b : Buf) (o : Nat) (st : PCallIDBody) (h : st.state = .fin) :
